@@ -20,7 +20,7 @@
 use anyhow::{anyhow, Error};
 use rusqlite::TransactionBehavior;
 use std::env;
-use std::io;
+use std::io::{self, Write};
 
 use redo::logs::LogBuilder;
 use redo::{self, Env, Files, ProcessState, ProcessTransaction, RedoPath};
@@ -42,12 +42,14 @@ pub(crate) fn run() -> Result<(), Error> {
         let f = resf?;
         if f.is_target(&env2)? {
             let p = redo::relpath(env2.base().join(f.name()), &cwd)?;
-            println!(
-                "{}",
-                p.as_os_str()
-                    .to_str()
-                    .ok_or(anyhow!("could not get filename as UTF-8"))?
-            );
+            // (a listing nobody reads any more -- `| head -1` -- just ends)
+            let line = p
+                .as_os_str()
+                .to_str()
+                .ok_or(anyhow!("could not get filename as UTF-8"))?;
+            if writeln!(io::stdout(), "{}", line).is_err() {
+                return Ok(());
+            }
         }
     }
     Ok(())
